@@ -2,6 +2,7 @@ import Feox.Conc.InFlight
 import Feox.Conc.Pin
 import Feox.Conc.Epoch
 import Feox.Gen.Epoch
+import Feox.Gen.Unsafe
 /-!
 # C20 — the safe API is memory safe  *(partial: the ownership protocols the `unsafe` code relies on)*
 
@@ -94,5 +95,56 @@ example : AllAllowed {} [.push, .push, .submitOk 0, .submitFail 1, .complete 0] 
 
 example : let r := runEvs {} {} [.push, .push, .submitOk 0, .submitFail 1]
     (released r.1 0, released r.1 1) = (false, true) := by decide
+
+/-! ### the inventory of `unsafe`
+
+No Lean model covers the crate's own `unsafe` code; it is the part of C20 that is exercised (under
+AddressSanitizer) rather than proved.  What *is* checked on every run is that this code is where
+it was when it was read: `tools/gen_unsafe.py` lists every function of `src/` (test modules, `bin/`
+and the verification hooks aside) that contains `unsafe { }` blocks or is an `unsafe fn`, and every
+`unsafe impl`; the list below is what was audited — the epoch-protected slot (`TreeSlot::load /
+store / drop`, modelled in `Conc.Epoch`), `Send`/`Sync` for `Record`, the raw read / write / fsync /
+io_uring submission calls of `DiskIO`, the hardware CRC32C kernels and their dispatchers, the
+aligned-buffer allocator, the AES key hash, `lseek(SEEK_DATA)`.  A site outside it (a new lock-free
+fast path, say: seeded change C20-5), or more blocks in a site than were read, breaks the
+obligation; edits inside an audited block are the sanitizer runs' business. -/
+
+/-- (site id, blocks, unsafe fn) as audited -/
+def auditedUnsafe : List (Nat × Nat × Nat) := [
+  (229085882564, 1, 0),   -- src/core/record.rs :: drop
+  (792672844161, 1, 0),   -- src/core/record.rs :: load
+  (95327842651, 1, 0),   -- src/core/record.rs :: store
+  (183281217547, 1, 0),   -- src/core/record.rs :: unsafe impl Send for Record
+  (395258912441, 1, 0),   -- src/core/record.rs :: unsafe impl Sync for Record
+  (609007006387, 1, 0),   -- src/core/store/persistence.rs :: sparse_file_has_no_data
+  (713505917982, 2, 0),   -- src/storage/io.rs :: batch_write_inner
+  (994673069474, 1, 0),   -- src/storage/io.rs :: flush
+  (179384805537, 2, 0),   -- src/storage/io.rs :: read_sectors_sync
+  (615224192955, 1, 0),   -- src/storage/io.rs :: write_retirement_extent_direct
+  (805201918180, 2, 0),   -- src/storage/io.rs :: write_sectors_sync
+  (665071778080, 0, 1),   -- src/storage/seq_token.rs :: crc32c_arm
+  (768659070182, 1, 0),   -- src/storage/seq_token.rs :: crc32c_arm_dispatch
+  (97529156329, 0, 1),   -- src/storage/seq_token.rs :: crc32c_x86
+  (761874568843, 1, 0),   -- src/storage/seq_token.rs :: crc32c_x86_dispatch
+  (557873581436, 2, 0),   -- src/utils/allocator.rs :: allocate_aligned
+  (223099423551, 2, 0),   -- src/utils/allocator.rs :: allocate_large
+  (787280133635, 1, 0),   -- src/utils/allocator.rs :: allocate_small
+  (197571463853, 1, 0),   -- src/utils/allocator.rs :: as_mut_slice
+  (672018909126, 1, 0),   -- src/utils/allocator.rs :: as_slice
+  (542943685723, 2, 0),   -- src/utils/allocator.rs :: deallocate_aligned
+  (460059091253, 2, 0),   -- src/utils/allocator.rs :: deallocate_large
+  (717350713368, 1, 0),   -- src/utils/allocator.rs :: deallocate_small
+  (1060476114823, 1, 0),   -- src/utils/hash.rs :: hash_key_aes_safe
+  (1045480647295, 0, 1)   -- src/utils/hash.rs :: hash_key_aes_unsafe
+]
+
+def siteAudited (s : Nat × Nat × Nat) : Bool :=
+  auditedUnsafe.any fun a => a.1 == s.1 && decide (s.2.1 ≤ a.2.1) && decide (s.2.2 ≤ a.2.2)
+
+theorem unsafe_sites_audited : Feox.Gen.unsafeSites.all siteAudited = true := by decide
+
+/-- the check is not vacuous: a site that was never read is refused -/
+example : siteAudited (42, 1, 0) = false := by decide
+example : Feox.Gen.unsafeSites.length ≥ 20 := by decide
 
 end Feox.C20
